@@ -1,6 +1,7 @@
 import TlsProofs.RecordSend
 import TlsProofs.RecordConn
 import TlsProofs.RecordDemo
+import TlsProofs.RecordCbc
 /-
   C01 — application data is delivered exactly, in order, for every suite and version; no record
   carries more plaintext than the limit in force.
@@ -172,6 +173,19 @@ theorem unprotect_protect {S} (P : Prims S) (c : Cfg) (hc : c.WF P)
     recvRecord P c rv r = .ok { rv with st := st', earlyOk := false, processed := 0 } t data :=
   recvRecord_sendRecord P c hc hm hs hb ha padCb sendLimit st st' t data r rv hsync hearly ht hlim hrl
     hinner hov htag hivl h
+
+/-- The block-cipher hypothesis `BlockLaw` is what CBC gives: for ANY block function `E` with a left
+    inverse `D` on blocks, CBC chaining (state = chaining block, carried from record to record as
+    the Python cipher objects do) satisfies `dec (enc x) = x` with both ends in the same state —
+    proved from `D (E b) = b` by induction on the blocks.  Together with `unprotect_protect_mteCbc`
+    / `_etm` this covers the SSLv3/TLS 1.0 implicit-IV chaining and the TLS ≥ 1.1 construction
+    (random block prepended by the sender, first decrypted block discarded by the receiver). -/
+theorem cbc_chaining_lawful (B : BlockPerm) (mac : CT.MacAlg) (hD : ∀ b, (B.D b).length = b.length) :
+    BlockLaw (cbcPrims B mac) :=
+  cbcPrims_blockLaw B mac hD
+
+example : BlockLaw (cbcPrims demoPerm (Demo.prims 5).mac) :=
+  cbc_chaining_lawful demoPerm _ (fun b => by simp [demoPerm])
 
 /-! ## record_size_limit negotiation -/
 
